@@ -198,6 +198,10 @@ class ProgGen(object):
                 st = r.choice(cands)
                 self.outcomes.pop(st["text"], None)
                 st["text"] = st["text"] + " <x>"
+        if steps:
+            steps[0]["first_of_background"] = True
+            if r.random() < o.get("p_bg_star", 0.2):
+                steps[0]["kw"] = "*"        # a Background that starts with '*': a Given, whatever came before the Background
         return {"kind": "background", "name": "", "desc": [], "steps": steps}
 
     def items(self, prefix, allow_rules):
